@@ -246,3 +246,148 @@ Corollary relay_reparses l m src : tokenize l = inl m -> nows src -> validate_so
   tokenize (to_string_with_source m src) =
   inl {| m_source := Some src; m_command := m_command m; m_params := m_params m |}.
 Proof. intros H Hs Hv. destruct (tokenize_wellformed l m H) as [Hc Hp]. now apply roundtrip. Qed.
+
+(* ---------------------------------------------------------------- the grammar, with blank runs of any kind *)
+(* a separator: a non-empty run of ASCII blanks (SP, TAB, LF, FF, CR) *)
+Definition ws_run (r : str) : Prop := r <> [] /\ forallb is_ascii_ws r = true.
+
+Definition spw (ts : list (str * str)) : str := concat (map (fun x => fst x ++ snd x) ts).
+
+Lemma ws_not_colon c : is_ascii_ws c = true -> N.eqb c c_colon = false.
+Proof.
+  unfold is_ascii_ws. intros H. repeat (apply orb_true_iff in H as [H|H]); apply N.eqb_eq in H; subst c; reflexivity.
+Qed.
+
+Lemma ft_ws r : forall prev acc rest, forallb is_ascii_ws r = true -> r <> [] ->
+  exists prev', is_ascii_ws prev' = true /\
+    find_trailing prev (r ++ rest) acc = find_trailing prev' rest (rev r ++ acc).
+Proof.
+  induction r as [|c r IH]; intros prev acc rest Hr Hne; [contradiction|].
+  cbn [forallb] in Hr. apply andb_true_iff in Hr as [Hc Hr]. cbn [app find_trailing]. rewrite (ws_not_colon c Hc). cbn [andb].
+  destruct r as [|d r].
+  - exists c. split; [exact Hc|reflexivity].
+  - destruct (IH c (c :: acc) rest Hr) as [p' [Hp' E]]; [discriminate|]. exists p'. split; [exact Hp'|].
+    rewrite E. cbn [rev]. now rewrite <- !app_assoc.
+Qed.
+
+Lemma ft_tok_any t : forall prev acc rest, mid_ok t ->
+  exists prev', is_ascii_ws prev' = false /\
+    find_trailing prev (t ++ rest) acc = find_trailing prev' rest (rev t ++ acc).
+Proof.
+  intros prev acc rest [Ht Hh]. destruct t as [|c t]; [contradiction|]. apply nows_cons in Ht as [Hc Ht].
+  cbn [app find_trailing]. rewrite Hh. cbn [andb].
+  destruct (ft_nows t c (c :: acc) rest Hc Ht) as [p' [Hp' E]]. exists p'. split; [exact Hp'|].
+  rewrite E. cbn [rev]. now rewrite <- app_assoc.
+Qed.
+
+Definition sep_tok_ok (x : str * str) : Prop := ws_run (fst x) /\ mid_ok (snd x).
+
+Lemma ft_spw ts : forall prev acc rest, Forall sep_tok_ok ts ->
+  exists prev', find_trailing prev (spw ts ++ rest) acc = find_trailing prev' rest (rev (spw ts) ++ acc).
+Proof.
+  induction ts as [|[sep t] ts IH]; intros prev acc rest Hts.
+  - exists prev. reflexivity.
+  - inversion Hts as [|? ? [[Hne Hws] Ht] Hts']; subst. cbn [fst snd] in *. unfold spw. cbn [map concat fst snd]. fold (spw ts).
+    rewrite <- !app_assoc.
+    destruct (ft_ws sep prev acc (t ++ spw ts ++ rest) Hws Hne) as [p1 [_ E1]]. rewrite E1.
+    destruct (ft_tok_any t p1 (rev sep ++ acc) (spw ts ++ rest) Ht) as [p2 [_ E2]]. rewrite E2.
+    destruct (IH p2 (rev t ++ rev sep ++ acc) rest Hts') as [p3 E3]. exists p3. rewrite E3.
+    rewrite !rev_app_distr. now rewrite <- !app_assoc.
+Qed.
+
+Lemma words_ws r : forall s cur, forallb is_ascii_ws r = true -> r <> [] ->
+  words_aux (r ++ s) cur = (if is_empty cur then [] else [rev cur]) ++ words_aux s [].
+Proof.
+  induction r as [|c r IH]; intros s cur Hr Hne; [contradiction|].
+  cbn [forallb] in Hr. apply andb_true_iff in Hr as [Hc Hr]. cbn [app words_aux]. rewrite Hc.
+  destruct r as [|d r].
+  - cbn [app]. destruct (is_empty cur); reflexivity.
+  - rewrite (IH s [] Hr) by discriminate. cbn [is_empty app]. destruct (is_empty cur); reflexivity.
+Qed.
+
+Lemma words_spw ts : forall cur tailws, Forall sep_tok_ok ts -> forallb is_ascii_ws tailws = true ->
+  words_aux (spw ts ++ tailws) cur = (if is_empty cur then [] else [rev cur]) ++ map snd ts.
+Proof.
+  induction ts as [|[sep t] ts IH]; intros cur tailws Hts Htw.
+  - unfold spw. cbn [map concat app]. destruct tailws as [|c tw].
+    + cbn. destruct (is_empty cur); reflexivity.
+    + rewrite <- (app_nil_r (c :: tw)). rewrite (words_ws (c :: tw) [] cur Htw) by discriminate. cbn. now rewrite app_nil_r.
+  - inversion Hts as [|? ? [[Hne Hws] [Ht Hh]] Hts']; subst. cbn [fst snd] in *. unfold spw. cbn [map concat fst snd]. fold (spw ts).
+    rewrite <- !app_assoc. rewrite (words_ws sep _ cur Hws Hne). f_equal.
+    rewrite (words_nows t _ [] Ht). rewrite app_nil_r. rewrite (IH (rev t) tailws Hts' Htw).
+    rewrite is_empty_rev, rev_involutive. destruct t as [|c t]; [contradiction|]. reflexivity.
+Qed.
+
+(* Completeness of the tokenizer for the IRC grammar: any leading (Unicode) blanks, optional
+   ':'source followed by a blank run, the command, middle parameters each preceded by a blank run of
+   any kind and length, then either a blank run and ':' and ANY trailing text, or only trailing
+   blanks - is tokenised to exactly (source, command, middles [++ trailing]). *)
+Theorem grammar_complete lead (src : option (str * str)) cmd mids (trailing : option (str * str)) tailws :
+  forallb is_unicode_ws lead = true ->
+  match src with Some (sn, sep0) => nows sn /\ validate_source sn = true /\ ws_run sep0 | None => True end ->
+  mid_ok cmd -> (src = None -> match cmd with c :: _ => is_unicode_ws c = false | [] => True end) ->
+  Forall sep_tok_ok mids ->
+  match trailing with Some (sep, _) => ws_run sep /\ tailws = [] | None => forallb is_ascii_ws tailws = true end ->
+  tokenize (lead ++ match src with Some (sn, sep0) => (c_colon :: sn) ++ sep0 | None => [] end
+                 ++ cmd ++ spw mids
+                 ++ match trailing with Some (sep, tr) => sep ++ c_colon :: tr | None => tailws end)
+  = inl {| m_source := option_map fst src; m_command := cmd;
+           m_params := map snd mids ++ match trailing with Some (_, tr) => [tr] | None => [] end |}.
+Proof.
+  intros Hlead Hsrc Hcmd Hfirst Hmids Htr.
+  (* the leading blanks are trimmed *)
+  assert (forall body c0 rest, body = c0 :: rest -> is_unicode_ws c0 = false -> trim_start (lead ++ body) = body) as Htrim.
+  { intros body c0 rest -> Hc0. clear -Hlead Hc0. induction lead as [|x l IH]; cbn [app trim_start].
+    - now rewrite Hc0.
+    - cbn [forallb] in Hlead. apply andb_true_iff in Hlead as [Hx Hl]. rewrite Hx. now apply IH. }
+  (* normal form: first token, then separator/token pairs, then the tail *)
+  set (tail := match trailing with Some (sep, tr) => sep ++ c_colon :: tr | None => tailws end).
+  destruct src as [[sn sep0]|].
+  - destruct Hsrc as [Hsn [Hv [Hne0 Hws0]]].
+    unfold tokenize. rewrite <- !app_assoc. cbn [app]. rewrite (Htrim _ c_colon _ eq_refl eq_refl). change (N.eqb c_colon c_colon) with true.
+    (* tokens after the source: (sep0, cmd) :: mids *)
+    assert (sn ++ sep0 ++ cmd ++ spw mids ++ tail = sn ++ spw ((sep0, cmd) :: mids) ++ tail) as En.
+    { unfold spw. cbn [map concat fst snd]. now rewrite <- !app_assoc. }
+    rewrite En. clear En.
+    assert (Forall sep_tok_ok ((sep0, cmd) :: mids)) as Hall by (constructor; [split; [split|]; assumption|assumption]).
+    destruct (ft_nows sn c_colon [c_colon] (spw ((sep0, cmd) :: mids) ++ tail) ws_colon Hsn) as [p1 [_ E1]]. rewrite E1.
+    destruct (ft_spw ((sep0, cmd) :: mids) p1 (rev sn ++ [c_colon]) tail Hall) as [p2 E2]. rewrite E2.
+    assert (forall extra, forallb is_ascii_ws extra = true ->
+              words (rev (rev extra ++ rev (spw ((sep0, cmd) :: mids)) ++ rev sn ++ [c_colon])) = (c_colon :: sn) :: cmd :: map snd mids) as Hw.
+    { intros extra Hex. rewrite !rev_app_distr, !rev_involutive. cbn [rev app]. rewrite <- !app_assoc. cbn [app].
+      unfold words. change (c_colon :: sn ++ spw ((sep0, cmd) :: mids) ++ extra) with ((c_colon :: sn) ++ spw ((sep0, cmd) :: mids) ++ extra).
+      rewrite words_nows by (apply nows_cons; split; [reflexivity|exact Hsn]).
+      rewrite (words_spw ((sep0, cmd) :: mids) _ extra Hall Hex). rewrite app_nil_r, is_empty_rev, rev_involutive. reflexivity. }
+    unfold tail. destruct trailing as [[sep tr]|].
+    + destruct Htr as [[Hnes Hwss] ->].
+      destruct (ft_ws sep p2 (rev (spw ((sep0, cmd) :: mids)) ++ rev sn ++ [c_colon]) (c_colon :: tr) Hwss Hnes) as [p3 [Hp3 E3]]. rewrite E3.
+      cbn [find_trailing]. change (N.eqb c_colon c_colon) with true. rewrite Hp3. cbn [andb].
+      rewrite (Hw sep Hwss). cbn [tl option_map fst]. rewrite Hv. reflexivity.
+    + (* no trailing parameter: the rest is blanks *)
+      assert (forall tw prev acc, forallb is_ascii_ws tw = true -> find_trailing prev tw acc = (rev (rev tw ++ acc), None)) as Fend.
+      { induction tw as [|c tw IHt]; intros prev acc Hw'; cbn [find_trailing]; [reflexivity|].
+        cbn [forallb] in Hw'. apply andb_true_iff in Hw' as [Hc Hw']. rewrite (ws_not_colon c Hc). cbn [andb].
+        rewrite IHt by exact Hw'. cbn [rev]. now rewrite <- app_assoc. }
+      rewrite (Fend tailws _ _ Htr). rewrite (Hw tailws Htr). cbn [tl option_map fst]. rewrite Hv. now rewrite app_nil_r.
+  - destruct Hcmd as [Hcn Hch]. destruct cmd as [|c0 cmd']; [contradiction|]. specialize (Hfirst eq_refl). cbn in Hfirst.
+    apply nows_cons in Hcn as [Hc0 Hcn'].
+    unfold tokenize. cbn [app]. rewrite (Htrim _ c0 _ eq_refl Hfirst). rewrite Hch.
+    destruct (ft_nows cmd' c0 [c0] (spw mids ++ tail) Hc0 Hcn') as [p1 [_ E1]]. rewrite E1.
+    destruct (ft_spw mids p1 (rev cmd' ++ [c0]) tail Hmids) as [p2 E2]. rewrite E2.
+    assert (forall extra, forallb is_ascii_ws extra = true ->
+              words (rev (rev extra ++ rev (spw mids) ++ rev cmd' ++ [c0])) = (c0 :: cmd') :: map snd mids) as Hw.
+    { intros extra Hex. rewrite !rev_app_distr, !rev_involutive. cbn [rev app]. rewrite <- !app_assoc. cbn [app].
+      unfold words. change (c0 :: cmd' ++ spw mids ++ extra) with ((c0 :: cmd') ++ spw mids ++ extra).
+      rewrite words_nows by (apply nows_cons; split; assumption).
+      rewrite (words_spw mids _ extra Hmids Hex). rewrite app_nil_r, is_empty_rev, rev_involutive. reflexivity. }
+    unfold tail. destruct trailing as [[sep tr]|].
+    + destruct Htr as [[Hnes Hwss] ->].
+      destruct (ft_ws sep p2 (rev (spw mids) ++ rev cmd' ++ [c0]) (c_colon :: tr) Hwss Hnes) as [p3 [Hp3 E3]]. rewrite E3.
+      cbn [find_trailing]. change (N.eqb c_colon c_colon) with true. rewrite Hp3. cbn [andb].
+      rewrite (Hw sep Hwss). reflexivity.
+    + assert (forall tw prev acc, forallb is_ascii_ws tw = true -> find_trailing prev tw acc = (rev (rev tw ++ acc), None)) as Fend.
+      { induction tw as [|c tw IHt]; intros prev acc Hw'; cbn [find_trailing]; [reflexivity|].
+        cbn [forallb] in Hw'. apply andb_true_iff in Hw' as [Hc Hw']. rewrite (ws_not_colon c Hc). cbn [andb].
+        rewrite IHt by exact Hw'. cbn [rev]. now rewrite <- app_assoc. }
+      rewrite (Fend tailws _ _ Htr). rewrite (Hw tailws Htr). cbn [option_map]. now rewrite app_nil_r.
+Qed.
